@@ -35,6 +35,12 @@ CHECKS['C09'] = dict(
    note='PARTIAL: the code computes in binary floating point, the model in exact rationals; no theorem relates the two, the gap is covered by the grid correspondence (ties on the grid are exact or >= 1e-7 away). Trusted: Coq kernel; gen_params.py/py2coq; hand transcription of colorsys and of the Color method wiring.',
    design='3/C09')
 
+CHECKS['C02'] = dict(
+   technique='Coq proof by nested induction over the rule tree (evaluator = preorder flattening; printer = concatenation of groups) and over selector token lists (Identifier.root) + byte-exact model correspondence + reference-semantics comparison through an independent CSS reader',
+   text='Theorems C02_flatten (for every tree of ordinary nested rules, any depth/width, the evaluator model succeeds and the printed groups are exactly the preorder flattening: own declarations first, nested rules depth-first in source order, each rule with a declaration once, empty rules omitted), C02_text (the text is the concatenation of the printed groups for every option vector), C02_one_rule_each, C02_selector_count / C02_descendant / C02_ampersand (every parent x every child selector, child-major, |parents|^k tuples in itertools.product order for k ampersands), C02_ampersand_textual_partial (substitution is textual unless a token ends in ] : known finding F25). Correspondence: generated nesting trees through the real compiler, compared byte-for-byte with the Coq model under vm_compute and item-by-item with the reference semantics Spec/Sem.v.',
+   note='Trusted: Coq kernel; hand model of Identifier.parse/root/fmt, Block.parse/fmt, Property.fmt, Formatter (tied to the code by byte-exact correspondence on every generated case); harness/gens/sheet.py tree() as the stand-in for the LALR parser (validated by the same comparison); harness/readcss.py. Known finding F25 (blank inserted when & follows an attribute selector).',
+   design='3/C02')
+
 NOT_YET = {}
 
 
